@@ -695,7 +695,7 @@ pub fn run(args: &Args) -> i32 {
          Non-trivial = history in which a bucket was full and a pending entry was created; distinct by (op, outcome) sequence",
     )));
     let tiny = args.extra.get("budget").map(|b| b == "tiny").unwrap_or(false);
-    let d = if tiny { 2 } else { args.tier.pick(4, 5) };
+    let d = if tiny { 1 } else { args.tier.pick(4, 5) };
     let full = alphabet(true);
     let reduced = alphabet(false);
     let n1 = (full.len() as u64).pow(d);
@@ -710,7 +710,7 @@ pub fn run(args: &Args) -> i32 {
         exhaustive_case(check, i, &reduced, d + 1, 2)
     });
     check.note("exhaustive", json!(format!("partly: all {n1} sequences of length {d} over {} ops (bucket_size 1) and all {n2} of length {} over {} ops (bucket_size 2)", full.len(), d + 1, reduced.len())));
-    let n = if tiny { 10 } else { args.tier.pick(20_000, 500_000) };
+    let n = if tiny { 3 } else { args.tier.pick(20_000, 500_000) };
     vmon::par_cases(check, n, args.threads, |_i, rng| {
         arm(&dog);
         prng_case(check, rng)
